@@ -91,7 +91,7 @@ def check_point(rec, case, k, nbytes, res):
                     try:
                         reorgrun.check_final(w, final_blocks, res, failures, rec['limit'],
                                              label='after-restart', populate=True)
-                    except (world.ReaderBlocked, RuntimeError) as e:
+                    except (world.ReaderBlocked, observe.ReadFailed, RuntimeError) as e:
                         failures.append(('after-restart:reader-retries-forever', dict(error=repr(e))))
             finally:
                 w.close(destroy=False)
